@@ -30,7 +30,7 @@ ASSUMPTIONS = [
     "reference ordered-set + TTL model in this file (insertion order of survivors; TTL merged by union/intersection/update/add(ttl))",
     "case-insensitivity of embedded names is demanded for the RFC 4034 §6.2 types (minus NSEC); LP and CH A are owned by C15",
 ]
-REQUIRED = ["mon.immutability_attack", "mon.deep_walk", "mon.deep_walk_other_producers", "mon.eq_hash_order", "mon.set_step", "mon.rdataset_step", "mon.immutable_rdataset_mutator"]
+REQUIRED = ["mon.immutability_attack", "mon.deep_walk", "mon.deep_walk_other_producers", "mon.eq_hash_order", "mon.set_step", "mon.rdataset_step", "mon.immutable_rdataset_mutator", "mon.immutable_rdataset_source_mutated"]
 BUDGET = {"quick": 40.0, "thorough": 420.0}
 
 SINGLETONS = {5, 6, 39, 47, 30}  # CNAME SOA DNAME NSEC NXT
@@ -352,7 +352,9 @@ def set_history(ctx, rng, universe, make, tag):
                     s |= o
                 else:
                     s += o
-                sets[i] = s
+                if s is not sets[i]:
+                    ctx.violation(f"set-inplace-operator-rebinds:{tag}:{op}", str(trace), None)
+                    return
                 for k in om.keys():
                     m.d.setdefault(k)
             elif op in ("intersection_update", "iand"):
@@ -360,21 +362,27 @@ def set_history(ctx, rng, universe, make, tag):
                     s &= o
                 else:
                     s.intersection_update(o)
-                sets[i] = s
+                if s is not sets[i]:
+                    ctx.violation(f"set-inplace-operator-rebinds:{tag}:{op}", str(trace), None)
+                    return
                 m.d = {k: None for k in m.d if k in om.d}
             elif op in ("difference_update", "isub"):
                 if op == "isub":
                     s -= o
                 else:
                     s.difference_update(o)
-                sets[i] = s
+                if s is not sets[i]:
+                    ctx.violation(f"set-inplace-operator-rebinds:{tag}:{op}", str(trace), None)
+                    return
                 m.d = {k: None for k in m.d if k not in om.d} if om is not m else {}
             elif op in ("symmetric_difference_update", "ixor"):
                 if op == "ixor":
                     s ^= o
                 else:
                     s.symmetric_difference_update(o)
-                sets[i] = s
+                if s is not sets[i]:
+                    ctx.violation(f"set-inplace-operator-rebinds:{tag}:{op}", str(trace), None)
+                    return
                 if om is m:
                     m.d = {}
                 else:
@@ -549,8 +557,16 @@ def rdataset_history(ctx, rng, t, pool, foreign, owner):
             elif op in ("union_update", "update"):
                 if op == "update":
                     r.update(o)
+                elif rng.random() < 0.3:
+                    if rng.random() < 0.5:
+                        r |= o
+                    else:
+                        r += o
                 else:
                     r.union_update(o)
+                if r is not rs[i]:
+                    ctx.violation(f"rdataset-inplace-operator-rebinds:{t}", f"{trace}", None)
+                    return
                 m_update_ttl(m, om["ttl"])
                 if o is not r:
                     for k, rd in list(om["k"].items()):
@@ -561,12 +577,24 @@ def rdataset_history(ctx, rng, t, pool, foreign, owner):
                     if sig and om["k"] and not (m["covers"]):
                         m["covers"] = om["covers"]
             elif op == "intersection_update":
-                r.intersection_update(o)
+                if rng.random() < 0.3:
+                    r &= o
+                else:
+                    r.intersection_update(o)
+                if r is not rs[i]:
+                    ctx.violation(f"rdataset-inplace-operator-rebinds:{t}", f"{trace}", None)
+                    return
                 m_update_ttl(m, om["ttl"])
                 if o is not r:
                     m["k"] = {k: v for k, v in m["k"].items() if k in om["k"]}
             elif op == "difference_update":
-                r.difference_update(o)
+                if rng.random() < 0.3:
+                    r -= o
+                else:
+                    r.difference_update(o)
+                if r is not rs[i]:
+                    ctx.violation(f"rdataset-inplace-operator-rebinds:{t}", f"{trace}", None)
+                    return
                 m["k"] = {} if o is r else {k: v for k, v in m["k"].items() if k not in om["k"]}
             elif op == "empty_then_union":
                 # a set that was emptied keeps its old TTL attribute; what is merged into an EMPTY set brings its own TTL
@@ -733,6 +761,29 @@ def rdataset_history(ctx, rng, t, pool, foreign, owner):
             return
         if not raised:
             ctx.violation(f"immutable-rdataset-mutator-did-not-raise:{name}", f"type {t}", None)
+    # the frozen set is a value of its own: what happens to the set it was made from afterwards does not show through
+    ctx.count("mon.immutable_rdataset_source_mutated")
+    scratch = src.copy()
+    im2 = dns.rdataset.ImmutableRdataset(scratch)
+    before2 = (list(map(rd_key, im2)), im2.ttl)
+    how = rng.choice(("clear", "remove", "add", "update_ttl", "difference_update"))
+    try:
+        if how == "clear":
+            scratch.clear()
+        elif how == "remove":
+            scratch.remove(next(iter(scratch)))
+        elif how == "add":
+            for extra in pool:
+                scratch.add(extra)
+        elif how == "update_ttl":
+            scratch.update_ttl(max(0, scratch.ttl - 1))
+        else:
+            scratch.difference_update(src)
+    except Exception:
+        pass
+    if (list(map(rd_key, im2)), im2.ttl) != before2:
+        ctx.violation(f"immutable-rdataset-follows-its-source:{how}", f"type {t}: {before2[0]} ttl {before2[1]} -> {list(map(rd_key, im2))} ttl {im2.ttl}", None)
+        return
     for name, fn in (("ior", lambda x: x.__ior__(other)), ("iand", lambda x: x.__iand__(other)), ("iadd", lambda x: x.__iadd__(other)), ("isub", lambda x: x.__isub__(other)), ("ixor", lambda x: x.__ixor__(src))):
         ctx.count("mon.immutable_rdataset_mutator")
         try:
